@@ -152,6 +152,9 @@ pub struct Opts {
     /// upper bound on |states| x |symbols| for the exhaustive transition comparison; above it the
     /// symbols per state are restricted to those with an edge on the state's fail chain plus a sample
     pub transition_cap: u64,
+    /// compare only the head of each state's output list (what find_iter and the no-suffix
+    /// iterator read) instead of the whole list (what the overlapping iterator walks)
+    pub outputs_head_only: bool,
 }
 
 /// Runs closure + ranking on any automaton; shape if `trie` is given; table if additionally the
@@ -488,7 +491,8 @@ pub fn check_structure(pma: &Pma<u32>, trie: Option<&SymTrie>, opts: &Opts) -> S
             pos = o.parent;
         }
         r.output_lists_checked += 1;
-        if got != exp {
+        let differs = if opts.outputs_head_only { got.first() != exp.first() } else { got != exp };
+        if differs {
             push(
                 &mut r.table,
                 format!(
